@@ -13,7 +13,7 @@ import (
 
 // ---------------------------------------------------------------- C16
 
-var c16IDKinds = []string{"known", "known", "known", "unknown", "empty", "dots", "dot", "slash", "encslash", "upper", "suffix", "prefix", "long", "space", "dashes", "star"}
+var c16IDKinds = []string{"known", "known", "known", "unknown", "empty", "dots", "dot", "slash", "encslash", "upper", "suffix", "prefix", "long", "space", "dashes", "star", "ctrl"}
 var c16NetFaults = []string{"drop", "droprsp", "status:500", "status:503", "status:400", "trunc:5", "stall"}
 
 func oracleC16(res *RunResult) []Violation {
@@ -188,7 +188,7 @@ func init() {
 	register(&Scenario{
 		Prop:  "C16",
 		Level: "exploration",
-		Rule:  "Engine-W histories of accepted and refused updates over 1..4 logs (IDs from the repository's own origin-to-ID function, cross-checked against the harness's) on both stores; after every step GETs through the registered mux router (following its path-cleaning redirects) and through the bundled client/http.Witness over simnet, for known, unknown and syntactically odd IDs (empty, dots, slash, encoded slash, upper-case hex, ID plus suffix, ID minus a character, 4000 characters, ...), with injected transport faults on client lookups (drop, 5xx, truncation, stall), the log list after every step; in a second batch the reads race the updates under the seeded scheduler (a GET while an update is parked mid-transaction); with a single client a request that is never answered (the scheduler finds no task able to proceed and hours of simulated time change nothing) is a violation; non-trivial = a read hit a log with a stored checkpoint after at least one growth, or an odd ID; distinct = distinct (ID kind, path, state class, status or client result class, fault) tuples",
+		Rule:  "Engine-W histories of accepted and refused updates over 1..4 logs (IDs from the repository's own origin-to-ID function, cross-checked against the harness's) on both stores; after every step GETs through the registered mux router (following its path-cleaning redirects) and through the bundled client/http.Witness over simnet, for known, unknown and syntactically odd IDs (empty, dots, slash, encoded slash, upper-case hex, ID plus suffix, ID minus a character, 4000 characters, an ID wrapped in percent-encoded control characters, ...), with injected transport faults on client lookups (drop, 5xx, truncation, stall), the log list after every step; in a second batch the reads race the updates under the seeded scheduler (a GET while an update is parked mid-transaction); with a single client a request that is never answered (the scheduler finds no task able to proceed and hours of simulated time change nothing) is a violation; non-trivial = a read hit a log with a stored checkpoint after at least one growth, or an odd ID; distinct = distinct (ID kind, path, state class, status or client result class, fault) tuples",
 		Gen: func(r *Rng, tier string, n uint64) *Plan {
 			if n%9 == 8 {
 				// updates arriving through the add-checkpoint endpoint, the read API after each of them: without an accepted
